@@ -310,7 +310,7 @@ struct Runner
   {
     static const double v = []() {
         if (const char * e = getenv(ScalarName<S>::bits == 32 ? "VERIF_C14_MAXCC_F" : "VERIF_C14_MAXCC_D")) {return atof(e);}
-        return ScalarName<S>::bits == 32 ? 1.0e5 : 1.0e5;
+        return ScalarName<S>::bits == 32 ? 1.0e6 : 1.0e13;
       }();
     return v;
   }
@@ -358,10 +358,14 @@ struct Runner
     return g;
   }
 
-  static std::unique_ptr<G> build_grid(GridDesc & g)
+  static std::unique_ptr<G> build_grid(GridDesc & g, bool default_then_assign = false)
   {
     std::unique_ptr<G> mp;
-    if (g.symmetric) {mp.reset(new G(g.max_range, g.res));} else {mp.reset(new G(Itv(g.lower, g.upper), g.res));}
+    if (default_then_assign) {
+      // default-constructed mapping that receives its grid by assignment
+      mp.reset(new G());
+      if (g.symmetric) {*mp = G(g.max_range, g.res);} else {*mp = G(Itv(g.lower, g.upper), g.res);}
+    } else if (g.symmetric) {mp.reset(new G(g.max_range, g.res));} else {mp.reset(new G(Itv(g.lower, g.upper), g.res));}
     const C nc = mp->getNumberOfCellsAlongAxes();
     g.ncells_max = 0;
     for (int i = 0; i < D; ++i) {g.ncells_max = std::max<size_t>(g.ncells_max, nc[i]);}
@@ -629,7 +633,8 @@ struct Runner
     Slot slot[2];
     int cur = 0;
     slot[0].g = make_grid_desc(r);
-    slot[0].m = build_grid(slot[0].g);
+    const bool dflt = r.coin(0.2);
+    slot[0].m = build_grid(slot[0].g, dflt);
     uint64_t h = vh::hash_doubles({static_cast<double>(ScalarName<S>::bits), static_cast<double>(D),
           static_cast<double>(slot[0].g.res), slot[0].g.symmetric ? 1.0 : 0.0});
     for (int i = 0; i < D; ++i) {h = vh::hash_add(h, slot[0].g.lower[i]); h = vh::hash_add(h, slot[0].g.upper[i]);}
@@ -640,12 +645,14 @@ struct Runner
       return;
     }
     c.cat(tag);
+    if (dflt) {c.cat("grid_default_constructed_then_assigned");}
     auto grid_cats = [&](const G & m, const GridDesc & g) {
         const C nc = m.getNumberOfCellsAlongAxes();
         c.cat(g.symmetric ? "ctor_symmetric_range" : "ctor_interval");
         if (g.dyadic) {c.cat("res_dyadic");}
         if (g.ncells_max >= 1000) {c.cat("grid_1000_to_2000_cells");}
         if (static_cast<double>(g.coord_cells) > 1.5 * static_cast<double>(g.ncells_max)) {c.cat("grid_offset_from_frame_origin");}
+        if (static_cast<double>(g.coord_cells) > 1.0e5) {c.cat("grid_beyond_1e5_cells_from_frame_origin");}
         for (int i = 0; i < D; ++i) {if (nc[i] <= 2) {c.cat("grid_axis_of_1_or_2_cells"); break;}}
       };
     grid_cats(*slot[0].m, slot[0].g);
@@ -835,7 +842,7 @@ struct Runner
       int di = r.coin(0.35) ? DI_NONE : static_cast<int>(r.range(1, DI_SAME_GRID_AGAIN));
       {
         double u = r.uni();         // a small share of long repetitions of one cheap mutator
-        if (u < 0.009) {di = DI_LONG_256;} else if (u < 0.012) {di = DI_LONG_65536;}
+        if (u < 0.005) {di = DI_LONG_256;} else if (u < 0.006) {di = DI_LONG_65536;}
       }
       // right after a grid change the origin has to be specified again before anything else
       // touches the grid: setEndPoint() alone would use the origin cell cached for the old grid
@@ -974,6 +981,13 @@ struct Runner
       // references to the caster's members, bound now and read after other objects were used
       ci.bound_o = &cp->getOriginPoint(); ci.bound_e = &cp->getEndPoint();
       ci.bound_oi = &cp->getOriginPointIndexes(); ci.bound_ei = &cp->getEndPointIndexes();
+      {
+        bool special = false;
+        for (int i = 0; i < D; ++i) {
+          if (std::fabs(o[i]) < std::numeric_limits<S>::min() || std::fabs(e[i]) < std::numeric_limits<S>::min()) {special = true;}
+        }
+        if (special) {c.cat("point_with_zero_or_denormal_coordinate");}
+      }
       if (temporaries) {c.cat("arguments_as_temporaries");}
       if (same_object_twice) {c.cat("same_object_for_both_arguments");}
       RC fresh_caster(&m);
